@@ -360,6 +360,25 @@ func ruleC19File(cx *Ctx) {
 			})
 		}
 		cx.R.Check(okCall && okErr, rule, m[0], "delegates to "+m[1], cx.P.Pos(fn.Pos()), "the file variant works on the given cache and reports the stream variant's error")
+		if m[0] == "SaveCacheToFile" {
+			// the snapshot replaces what the file held: a file opened with os.OpenFile for saving is truncated (or must
+			// not exist) - a shorter snapshot written over a longer one leaves the old tail behind the new stream, which
+			// the loader then reads as further (corrupt) records
+			allInstrs(fn, func(in ssa.Instruction) {
+				c := calleeOf(in)
+				if c == nil || c.Pkg == nil || c.Pkg.Pkg.Path() != "os" || c.Name() != "OpenFile" {
+					return
+				}
+				a := callArgs(in)
+				if len(a) < 2 {
+					return
+				}
+				k, isK := constInt(a[1])
+				const oTRUNC, oEXCL, oAPPEND = 0x200, 0x80, 0x400
+				ok := isK && (k&oTRUNC != 0 || k&oEXCL != 0) && k&oAPPEND == 0
+				cx.R.Check(ok, rule, m[0], "file opened for saving starts empty", cx.P.where(in), "os.OpenFile for the snapshot carries O_TRUNC (or O_EXCL) and not O_APPEND, as os.Create does")
+			})
+		}
 	}
 	_ = types.Typ
 }
